@@ -162,7 +162,7 @@ Definition match_fuel (s : book) (sd : side) : nat :=
 Definition do_match (sd : side) (s : book) (agg : order) : res (book * order) :=
   match match_loop (match_fuel s sd) sd s agg with
   | Some r => r
-  | None => Panic   (* unreachable: see Proofs/Fuel.v *)
+  | None => Panic   (* unreachable: Proofs/Progress.v, do_match_ok *)
   end.
 
 (** [place_bid_limit] / [place_ask_limit] on the copied entry *)
